@@ -9,7 +9,10 @@ echo "--- fix commits on $BR:"
 for c in $(git -C /repo log main..$BR --format=%H --reverse); do
   git -C /repo log -1 --format='%h %s' $c
   git -C /repo cherry-pick $c >/dev/null || { echo "CHERRY-PICK CONFLICT $c"; exit 1; }
-  echo "   -> $(git -C /repo log -1 --format=%h)"
+  NEW=$(git -C /repo log -1 --format=%h)
+  echo "   -> $NEW"
+  OLD=$(git -C /repo log -1 --format=%h $c)
+  for f in known_findings_$ID.json docs/$ID.md; do [ -f $f ] && sed -i "s/$OLD[0-9a-f]*/$NEW/g" $f; done
 done
 if [ -f known_findings_$ID.json ]; then
 python3 - <<PY
